@@ -17,7 +17,7 @@ Definition send_path_clauses : list (string * string * bool * bool * bool) := [
   ("SubscriptionsManagerBase._send_notification_report", "Exception", false, false, true);
   ("SubscriptionBase.send_notification_end_message", "Exception", false, false, false);
   ("BicepsSubscriptionAsync.async_send_notification_report", "HTTPReturnCodeError", true, false, true);
-  ("BicepsSubscriptionAsync.async_send_notification_report", "TimeoutError", false, true, true);
+  ("BicepsSubscriptionAsync.async_send_notification_report", "TimeoutError", true, true, true);
   ("BicepsSubscriptionAsync.async_send_notification_report", "Exception", true, true, true);
   ("BICEPSSubscriptionsManagerBaseAsync._async_send_notification_report", "HTTPReturnCodeError", false, false, false);
   ("BICEPSSubscriptionsManagerBaseAsync._async_send_notification_report", "TimeoutError | ClientConnectionError | ClientConnectorError | ServerConnectionError | TimeoutError", false, false, false);
